@@ -151,7 +151,7 @@ PROPS = {
     },
     "C09": {
         "props_file": "Props/C09.v",
-        "theorems": ["c09_adopt_or_refuse", "c09_same_request_until_recorded", "c09_listed_forever", "c09_tombstone_is_last_known_state", "c09_lost_only_if_unobserved", "c09_not_lost_refuted", "c09_recorded_forever"],
+        "theorems": ["c09_adopt_or_refuse", "c09_same_request_until_recorded", "c09_listed_forever", "c09_tombstone_is_last_known_state", "c09_lost_only_if_unobserved", "c09_not_lost_refuted", "c09_recorded_forever", "c09_never_listed_twice"],
         "families": [{"name": "jobsync", "n_quick": 120, "n_thorough": 3000, "shard_cap": 40}, {"name": "jobpure", "n_quick": 800, "n_thorough": 40000}],
         "rule": JOBSYNC_RULE,
         "trusted": JOB_TRUSTED + JOBSYNC_TRUSTED,
@@ -161,7 +161,7 @@ PROPS = {
     },
     "C12": {
         "props_file": "Props/C12.v",
-        "theorems": ["c12_kill_guard", "c12_kill_not_early", "c12_should_kill_means", "c12_no_create_after_kill", "c12_kill_terminal", "c12_kill_sweep_complete", "c12_pending_sweep_complete", "c12_pending_guard", "c12_pending_disabled", "c12_pending_effective_value", "c12_force_guard"],
+        "theorems": ["c12_kill_guard", "c12_kill_not_early", "c12_should_kill_means", "c12_no_create_after_kill", "c12_kill_terminal", "c12_kill_sweep_complete", "c12_pending_sweep_complete", "c12_pending_armed", "c12_force_armed", "c12_pending_guard", "c12_pending_disabled", "c12_pending_effective_value", "c12_force_guard"],
         "families": [{"name": "jobsync", "n_quick": 120, "n_thorough": 3000, "shard_cap": 40}],
         "rule": JOBSYNC_RULE,
         "trusted": JOB_TRUSTED + JOBSYNC_TRUSTED,
@@ -191,7 +191,7 @@ PROPS = {
     },
     "C11": {
         "props_file": "Props/C11.v",
-        "theorems": ["c11_state_and_phase", "c11_phase_terminal_iff_finished", "c11_counters", "c11_tasks_never_dropped", "c11_times_never_cleared", "c11_times_kept_when_pod_gone", "c11_start_time_forever", "c11_tasks_never_dropped_forever"],
+        "theorems": ["c11_state_and_phase", "c11_phase_terminal_iff_finished", "c11_counters", "c11_tasks_never_dropped", "c11_times_never_cleared", "c11_times_kept_when_pod_gone", "c11_start_time_forever", "c11_tasks_never_dropped_forever", "c11_times_never_cleared_forever", "c11_task_count_never_decreases"],
         "families": [{"name": "jobpure", "n_quick": 1500, "n_thorough": 60000}, {"name": "jobsync", "n_quick": 120, "n_thorough": 3000, "shard_cap": 40}],
         "rule": "as C10; the jobsync monitor compares every stored Job version with its predecessor (startTime, finished condition, createdTasks, recorded timestamps)",
         "trusted": JOB_TRUSTED,
